@@ -24,6 +24,10 @@ DEFINITE = (
     'cannot show invariant holds',
     'invariant not satisfied at end of loop body',
     'invariant not satisfied before loop',
+    'fails to satisfy',
+    'callee.requires',
+    'cannot prove',
+    'not satisfied',
 )
 UNDECIDED = ('resource limit', 'rlimit', 'timed out', 'solver')
 
